@@ -104,6 +104,10 @@ def scenarios(tier, batch_seed):
             lower = (d + round_no) % 2 == 0
             for enc in ("pm1", "10", "bool"):
                 dp = _data_params(rng, enc, lower, big=(tier != "quick"))
+                dp["n_files"] = 1 + (d + round_no + ("pm1", "10", "bool").index(enc)) % 2  # half of the data sets: two files
+                if dp["n_files"] == 2:
+                    dp["size_factors"] = [1.0, rng.choice([1.0, 0.7])]
+                    dp["n_spectra"] = max(dp["n_spectra"], rng.randint(200, 250))  # calibration is per (file, fold)
                 fold_choices = [3] if tier == "quick" else [2, 3, 4]
                 for folds in fold_choices:
                     base = _base(rng, dp, folds, override=False, fmt=rng.choice(["pin", "pin", "parquet"]))
@@ -111,6 +115,11 @@ def scenarios(tier, batch_seed):
                         scn = clone(base)
                         scn["modes"] = list(modes)
                         scn["seed"] = derive_seed(PROPERTY, batch_seed, idx)
+                        # worker count and schedule vary per assignment (the fallback path has its own worker tasks)
+                        r3 = random.Random(scn["seed"])
+                        w = r3.choice([1, 2, 3, 4])
+                        scn["cfg"]["max_workers"] = w
+                        scn["sched"] = world.gen_sched(r3, w, est_steps=3000) if w > 1 else {"mode": "fifo"}
                         idx += 1
                         yield scn
                     # fold-aligned variant: one feature is informative only in the rows held out by fold j, so the
